@@ -74,6 +74,10 @@ CLAIMED = {
    "Two real proxies (A in front of B): all 3 x 5 UDP listener x upstream pairings (SOCKS5 UDP ASSOCIATE with enforceUdpClient off/on, reverse-UDP, HTTP CONNECT with inline RPFM frames) x (direct, socks5->B, http->B, QUIC datagrams->B, QUIC inline->B) once each, then 30 (quick) / 1 500 (thorough) generated cases of 1-5 interleaved sessions sending datagrams of 0..65000 bytes to three tagging echo origins, incl. clients that vanish while a reply is in flight; every datagram must reach the addressed origin exactly once unmodified (also the first of a session and multi-fragment ones), every reply must return to the owning client labelled with the replying origin, and no origin may receive a datagram nobody sent.",
    "Trusted: loopback does not lose or reorder datagrams at the pacing used (one outstanding datagram per session); refcodec for the SOCKS5-UDP header and RPFM frames. TPROXY UDP is not set up. In this sandbox an ICMP port-unreachable is not delivered to the proxy's connected session socket, so the receive-error path of UdpFrameReader is not reachable.",
    "stateful generated sessions against real processes, oracle = multiset equality of datagrams per origin + reply labelling", "§3 C10"),
+ "C07": ("both", "fault_enumeration",
+   "(a) in-process: 20 000 / 600 000 generated SOCKS negotiations (method offers incl. both orders, duplicates, 255 arbitrary methods; credential near-misses; SOCKS4 ids; byte-wise delivery) against the real SocksRequest::read_from + AuthData::check with a positive control, and 40 / 800 real-clock histories against the external-command verdict cache (1 s timeout, similar names/passwords) where every verdict must be justified by a call for exactly that pair or a fresh cached verdict for the identical pair. (b) end-to-end, enumerated in full: 36 listener cells (http/socks/quic x client-cert policy x presented certificate), 48 connector cells (http/socks/quic x insecure x ca x upstream certificate valid/foreign/wrong-name/expired against harness TLS and QUIC upstreams) and 60 SOCKS credential cases through the real listener with smuggled payload.",
+   "Trusted: the openssl-generated test PKI; rustls/quinn in the harness as the peer implementation; guard bands of 0.3 s around the 1 s cache timeout.",
+   "enumerated credential/certificate matrices + proptest negotiation cases + model-based cache histories", "§3 C07"),
 }
 
 NOT_YET = "check not built yet in this session (see DESIGN.md §6 build order); will be claimed once its generator and oracle exist"
